@@ -647,3 +647,208 @@ Section Row.
         apply repeat_spec in H. exact H.
   Qed.
 End Row.
+
+(* ------------------------------------------------------------------ the row loop *)
+
+Lemma skipn_nth_error {A : Type} : forall (l : list A) s x, nth_error l s = Some x -> skipn s l = x :: skipn (S s) l.
+Proof. induction l; destruct s; simpl; intros x H; try discriminate; [congruence|]. apply IHl. exact H. Qed.
+
+Lemma nth_error_app_len {A : Type} (pre l : list A) : nth_error (pre ++ l) (length pre) = nth_error l 0.
+Proof. rewrite nth_error_app2 by lia. rewrite Nat.sub_diag. reflexivity. Qed.
+
+Lemma v_get_nat {A : Type} (v : list A) i x : nth_error v i = Some x -> v_get v (Z.of_nat i) = Some x.
+Proof.
+  intro H. assert (i < length v)%nat by (apply nth_error_Some; congruence).
+  unfold v_get. rewrite norm_index_in by (unfold vlen; lia). rewrite Nat2Z.id. exact H.
+Qed.
+
+Lemma v_get_app_nat {A : Type} (pre : list A) x r s : length pre = s -> v_get (pre ++ x :: r) (Z.of_nat s) = Some x.
+Proof. intros <-. apply v_get_app_len. Qed.
+Lemma v_store_app_nat {A : Type} (pre : list A) x r y s : length pre = s ->
+  v_store (pre ++ x :: r) (Z.of_nat s) y = Some (pre ++ y :: r).
+Proof. intros <-. apply v_store_app_len. Qed.
+
+Section Loop.
+  Context {A B C D : Type}.
+  Variable body : A -> B -> C -> D -> option (A * D).
+  Variables (fa : Z -> A) (fd : Z -> D).
+  Variables (ma : list A) (mb : list B) (mc : list C) (md : list D) (n : nat).
+  Hypothesis Ha : length ma = n.
+  Hypothesis Hd : length md = n.
+  Hypothesis Hbody : forall i a b c d, nth_error ma i = Some a -> nth_error mb i = Some b ->
+    nth_error mc i = Some c -> nth_error md i = Some d -> body a b c d = Some (fa (Z.of_nat i), fd (Z.of_nat i)).
+  Hypothesis Hb : length mb = n.
+  Hypothesis Hc : length mc = n.
+
+  Let F := fun row (st : list A * list D) =>
+    let '(ma, md) := st in
+    match v_get ma row, v_get mb row, v_get mc row, v_get md row with
+    | Some a, Some b, Some c, Some d =>
+        match body a b c d with
+        | Some (a', d') =>
+            match v_store ma row a', v_store md row d' with
+            | Some ma', Some md' => Some (ma', md')
+            | _, _ => None
+            end
+        | None => None
+        end
+    | _, _, _, _ => None
+    end.
+  Let stA s := map (fun i => fa (Z.of_nat i)) (seq 0 s) ++ skipn s ma.
+  Let stD s := map (fun i => fd (Z.of_nat i)) (seq 0 s) ++ skipn s md.
+
+  Lemma rows_step : forall k s, (s + k = n)%nat ->
+    for_list (map Z.of_nat (seq s k)) F (stA s, stD s) = Some (stA n, stD n).
+  Proof.
+    induction k; intros s Hs.
+    - simpl. replace s with n by lia. reflexivity.
+    - cbn [seq map for_list].
+      destruct (nth_error ma s) as [a|] eqn:Ea; [|apply nth_error_None in Ea; lia].
+      destruct (nth_error mb s) as [b|] eqn:Eb; [|apply nth_error_None in Eb; lia].
+      destruct (nth_error mc s) as [c|] eqn:Ec; [|apply nth_error_None in Ec; lia].
+      destruct (nth_error md s) as [d|] eqn:Ed; [|apply nth_error_None in Ed; lia].
+      assert (La : vlen (map (fun i => fa (Z.of_nat i)) (seq 0 s)) = Z.of_nat s)
+        by (unfold vlen; rewrite map_length, seq_length; reflexivity).
+      assert (Ld : vlen (map (fun i => fd (Z.of_nat i)) (seq 0 s)) = Z.of_nat s)
+        by (unfold vlen; rewrite map_length, seq_length; reflexivity).
+      unfold F at 1. unfold stA at 1 2, stD at 1 2.
+      rewrite (skipn_nth_error ma s a Ea), (skipn_nth_error md s d Ed).
+      rewrite !v_get_app_nat by (rewrite map_length, seq_length; reflexivity).
+      rewrite (v_get_nat mb s b Eb), (v_get_nat mc s c Ec).
+      rewrite (Hbody s a b c d Ea Eb Ec Ed).
+      rewrite !v_store_app_nat by (rewrite map_length, seq_length; reflexivity).
+      specialize (IHk (S s)). unfold stA at 1, stD at 1 in IHk.
+      rewrite !seq_S, !map_app in IHk. simpl in IHk. rewrite <- !app_assoc in IHk. simpl in IHk.
+      apply IHk. lia.
+  Qed.
+
+  Lemma rows_loop_tab :
+    rows_loop (Z.of_nat n) body ma mb mc md = Some (tab (Z.of_nat n) fa, tab (Z.of_nat n) fd).
+  Proof.
+    unfold rows_loop, for_range, np_arange. rewrite Nat2Z.id.
+    change (for_list (map Z.of_nat (seq 0 n)) F (stA 0, stD 0) = Some (tab (Z.of_nat n) fa, tab (Z.of_nat n) fd)).
+    rewrite (rows_step n 0) by lia. unfold stA, stD.
+    replace (skipn n ma) with (@nil A) by (symmetry; rewrite <- Ha; apply skipn_all).
+    replace (skipn n md) with (@nil D) by (symmetry; rewrite <- Hd; apply skipn_all).
+    rewrite !app_nil_r.
+    unfold tab, np_arange. rewrite Nat2Z.id, !map_map. reflexivity.
+  Qed.
+End Loop.
+
+(* ------------------------------------------------------------------ the model reads its rows only inside the image *)
+
+Lemma hit_ext nc dR dR' c d : (forall x, 0 <= x < nc -> dR x = dR' x) -> hit nc dR c d = hit nc dR' c d.
+Proof.
+  intro H. unfold hit. destruct ((0 <=? d + c) && (d + c <? nc)) eqn:E; [|reflexivity].
+  rewrite H by lia. reflexivity.
+Qed.
+
+Lemma comp_ext nc dR dR' dmin dmax c : (forall x, 0 <= x < nc -> dR x = dR' x) ->
+  comp nc dR dmin dmax c = comp nc dR' dmin dmax c.
+Proof. intro H. unfold comp. rewrite (filter_ext _ _ (fun d => hit_ext nc dR dR' c d H)). reflexivity. Qed.
+
+Lemma row_ext nc dL dL' dR dR' mk mk' thr dmin dmax c :
+  (forall x, 0 <= x < nc -> dL x = dL' x /\ dR x = dR' x /\ mk x = mk' x) -> 0 <= c < nc ->
+  mask_row true true nc dL dR mk thr dmin dmax c = mask_row true true nc dL' dR' mk' thr dmin dmax c
+  /\ conf_row true nc dL dR mk c = conf_row true nc dL' dR' mk' c.
+Proof.
+  intros H Hc. destruct (H c Hc) as (E1 & E2 & E3).
+  rewrite !mask_row_pixel, !conf_row_pixel. unfold pixel_mask, pixel_conf. cbv zeta.
+  assert (Ecr : col_right_of true dL c = col_right_of true dL' c) by (unfold col_right_of; rewrite E1; reflexivity).
+  rewrite <- Ecr, <- E3.
+  rewrite <- (comp_ext nc dR dR' dmin dmax c (fun x Hx => proj1 (proj2 (H x Hx)))).
+  set (q := col_right_of true dL c).
+  destruct (in_img nc q) eqn:Ein.
+  - assert (Ed : dist dL dR (c, q) = dist dL' dR' (c, q)).
+    { unfold dist. cbn [fst snd]. rewrite <- E1. unfold in_img in Ein.
+      rewrite <- (proj1 (proj2 (H q ltac:(lia)))). reflexivity. }
+    rewrite <- Ed. split; reflexivity.
+  - rewrite !andb_false_r. split; reflexivity.
+Qed.
+
+Lemma mask_border_ext nr nc off m m' r c : m r c = m' r c -> mask_border nr nc off m r c = mask_border nr nc off m' r c.
+Proof. intro H. unfold mask_border. rewrite H. reflexivity. Qed.
+
+Lemma nth_error_tab {A : Type} n (f : Z -> A) i a : nth_error (tab n f) i = Some a ->
+  a = f (Z.of_nat i) /\ 0 <= Z.of_nat i < n.
+Proof.
+  intro H. assert (Hi : (i < length (tab n f))%nat) by (apply nth_error_Some; congruence).
+  unfold tab in *. rewrite map_length, arange_length in Hi.
+  unfold np_arange in H. rewrite map_map in H. rewrite nth_error_map in H.
+  rewrite (nth_error_nth' (seq 0 (Z.to_nat n)) 0%nat) in H by (rewrite seq_length; exact Hi).
+  rewrite seq_nth in H by exact Hi. simpl in H. split; [congruence|lia].
+Qed.
+
+Lemma tab_length {A : Type} n (f : Z -> A) : length (tab n f) = Z.to_nat n.
+Proof. unfold tab. rewrite map_length, arange_length. reflexivity. Qed.
+
+(* ------------------------------------------------------------------ the whole generated method = the model's xcheck *)
+
+Section DS.
+  Variables (thr : Q) (me other : dataset).
+  Hypothesis Hnr : 0 < ds_nr me.
+  Hypothesis Hnc : 0 <= ds_nc me.
+  Hypothesis Hr : ds_nr other = ds_nr me.
+  Hypothesis Hc : ds_nc other = ds_nc me.
+  Hypothesis Hm : forall r c, 0 <= r < ds_nr me -> 0 <= c < ds_nc me -> 0 <= ds_mask me r c < 65536.
+
+  Theorem gen_xcheck_eq_model :
+    XCheckKernel.g_disparity_checking x_append_band (x_mask_border (ds_nr me) (ds_nc me)) (XFin thr) (to_x me) (to_x other)
+    = Some (to_x (xcheck thr me other)).
+  Proof.
+    unfold XCheckKernel.g_disparity_checking.
+    assert (Esh : x_shape (to_x me) = (ds_nr me, ds_nc me)).
+    { unfold x_shape, to_x. cbn [x_disp]. unfold tab2. rewrite vlen_tab by lia. f_equal.
+      unfold tab at 1, np_arange. destruct (Z.to_nat (ds_nr me)) eqn:E; [lia|]. cbn [seq map hd].
+      apply vlen_tab. exact Hnc. }
+    rewrite Esh.
+    change (XCheckKernel.g_extract_disparity_range (to_x me)) with (np_arange2 (ds_dmin me) (ds_dmax me + 1)).
+    cbv zeta.
+    set (fa := fun r => tab (ds_nc me) (xcheck_mask true true thr me other r)).
+    set (fd := fun r => tab (ds_nc me) (fun c => x_of_conf (xcheck_conf true me other r c))).
+    assert (EL := rows_loop_tab (XCheckKernel.g_row (XFin thr) (ds_nc me) (np_arange2 (ds_dmin me) (ds_dmax me + 1)))
+                    fa fd (x_mask (to_x me)) (x_disp (to_x me)) (x_disp (to_x other))
+                    (np_full2 (ds_nr me) (ds_nc me) XNaN) (Z.to_nat (ds_nr me))).
+    rewrite Z2Nat.id in EL by lia.
+    rewrite EL; clear EL.
+    - cbn [x_offset x_append_band x_set_validation x_set_mask to_x].
+      unfold to_x, xcheck, xcheck_gen. cbn [ds_nr ds_nc ds_disp ds_mask ds_bands ds_dmin ds_dmax ds_offset].
+      rewrite Z.gtb_ltb. f_equal.
+      destruct (0 <? ds_offset me) eqn:Eo.
+      + unfold x_set_mask, x_append_band, x_set_validation, x_mask_border.
+        cbn [x_disp x_mask x_bands x_interval x_offset x_validation]. rewrite map_app. cbn [map].
+        f_equal. unfold tab2. apply tab_ext. intros r Hr'. apply tab_ext. intros c Hc'.
+        apply mask_border_ext. unfold fa. rewrite !fn_of_tab by lia. reflexivity.
+      + unfold x_set_mask, x_append_band, x_set_validation.
+        cbn [x_disp x_mask x_bands x_interval x_offset x_validation]. rewrite map_app. cbn [map]. reflexivity.
+    - unfold to_x. cbn [x_mask]. apply tab_length.
+    - unfold np_full2. apply repeat_length.
+    - intros i a b c d Ea Eb Ec Ed.
+      unfold to_x in Ea, Eb, Ec. cbn [x_mask x_disp] in Ea, Eb, Ec. unfold tab2 in Ea, Eb, Ec.
+      apply nth_error_tab in Ea. destruct Ea as [-> Hi].
+      apply nth_error_tab in Eb. destruct Eb as [-> _].
+      apply nth_error_tab in Ec. destruct Ec as [-> _].
+      unfold np_full2 in Ed. apply nth_error_In, repeat_spec in Ed. subst d.
+      set (r := Z.of_nat i) in *. rewrite Hc.
+      assert (G := gen_row_eq_model thr (ds_dmin me) (ds_dmax me) (tab (ds_nc me) (ds_mask me r))
+                     (tab (ds_nc me) (ds_disp me r)) (tab (ds_nc me) (ds_disp other r))).
+      rewrite !tab_length, vlen_tab in G by lia.
+      replace (tab (ds_nc me) (fun c => x_of_oq (ds_disp me r c))) with (map x_of_oq (tab (ds_nc me) (ds_disp me r)))
+        by (unfold tab; rewrite map_map; reflexivity).
+      replace (tab (ds_nc me) (fun c => x_of_oq (ds_disp other r c))) with (map x_of_oq (tab (ds_nc me) (ds_disp other r)))
+        by (unfold tab; rewrite map_map; reflexivity).
+      rewrite G; clear G; try reflexivity.
+      + unfold fa, fd. f_equal. f_equal.
+        * apply tab_ext. intros x Hx. unfold xcheck_mask.
+          replace ((0 <=? r) && (r <? ds_nr me)) with true by lia.
+          apply row_ext; [|exact Hx]. intros y Hy. rewrite !fn_of_tab by exact Hy. auto.
+        * apply tab_ext. intros x Hx. unfold xcheck_conf.
+          replace ((0 <=? r) && (r <? ds_nr me)) with true by lia. f_equal.
+          apply (row_ext (ds_nc me) _ _ _ _ _ _ thr (ds_dmin me) (ds_dmax me)); [|exact Hx].
+          intros y Hy. rewrite !fn_of_tab by exact Hy. auto.
+      + apply Forall_forall. intros m Hin. unfold tab in Hin. apply in_map_iff in Hin.
+        destruct Hin as [x [<- Hx]]. apply In_arange in Hx. apply Hm; lia.
+    - unfold to_x. cbn [x_disp]. apply tab_length.
+    - unfold to_x. cbn [x_disp]. rewrite Hr. apply tab_length.
+  Qed.
+End DS.
